@@ -711,6 +711,9 @@ class Registry:
         # special forms first
         fname = ast.unparse(e.func)
         if fname == "cast" and len(e.args) == 2:
+            # typing.cast(T, v) is v; the first argument must be a type expression (a swapped call returns the type)
+            if not isinstance(e.args[0], (ast.Name, ast.Attribute, ast.Subscript, ast.Constant, ast.BinOp)):
+                raise EngineUnsupported("cast() whose first argument is not a type expression")
             return ex.eval(st, e.args[1])
         if fname == "isinstance":
             return self._isinstance(ex, st, e)
